@@ -224,22 +224,36 @@ theorem limit_exact_fails : ¬ FullLimitExact := RevExpand.limit_exact_fails
 /-! ### a condition error is swallowed when `maxResults = 0` -/
 
 /-- the full statement: when the response is returned without error and was not cut by limit or deadline,
-it holds every confirmed object -/
-def FullNoSilentTruncation : Prop :=
+it holds every confirmed object (`zeroErr`: does the final rule of `Execute` fire for `maxResults = 0`) -/
+def FullNoSilentTruncation (zeroErr : Bool) : Prop :=
   ∀ (chk : String → CheckRes) (res : List (String × Bool)) (evs : List Ev),
     (∀ e ∈ evs, e ≠ .deadline ∧ e ≠ .stop) → (crun 0 chk evs (CSt.init res)).quiescent = true →
-    ∀ l, finalResult 0 (crun 0 chk evs (CSt.init res)) = some l → l.length = nConf chk res
+    ∀ l, finalResult zeroErr 0 (crun 0 chk evs (CSt.init res)) = some l → l.length = nConf chk res
 
 /-- `maxResults = 0` means "no limit".  The reverse expansion reports a condition-evaluation error after
 having sent two NoFurtherEval results; the loop's `select` takes `reverseExpandDoneWithError` first, and
 `Execute` drops the error because `len(objects) < int(maxResults)` is never true for 0: an empty list is
 returned as a complete answer. -/
-theorem swallowed_error_fails : ¬ FullNoSilentTruncation := by
+theorem swallowed_error_fails : ¬ FullNoSilentTruncation false := by
   intro h
   have := h (fun _ => .allow) [("doc:2", false), ("doc:3", false)] [.reError false]
     (by intro e he; simp at he; subst he; simp) (by decide) [] (by decide)
   revert this
   decide
+
+/-- with the rule extended to `maxResults = 0` a response is only returned when no error occurred -/
+theorem fixed_rule_reports (s : CSt) (l : List String) (h : finalResult true 0 s = some l) : s.err = false := by
+  unfold finalResult at h
+  cases he : s.err with
+  | false => rfl
+  | true => simp [he] at h
+
+/-- which of the two rules the source has right now -/
+theorem tie_final_error_rule :
+    (Gen.ListObjects.finalErrorRule = "len(listObjectsResponse.Objects) < int(maxResults) && errs != nil" ∧
+      Gen.ListObjects.zeroLimitReportsErrors = false) ∨
+    (Gen.ListObjects.finalErrorRule = "(maxResults == 0 || len(listObjectsResponse.Objects) < int(maxResults)) && errs != nil" ∧
+      Gen.ListObjects.zeroLimitReportsErrors = true) := by decide
 
 /-! ## completeness -/
 
@@ -330,10 +344,6 @@ theorem tie_consumer_loop : Gen.ListObjects.consumerRecvConds =
      "res.ResultStatus == reverseexpand.NoFurtherEvalStatus"] ∧
     Gen.ListObjects.checkGoroutineConds = ["err != nil", "!resolutionMetadata.DispatchThrottled.Load() && resp.DispatchThrottled", "resp.Allowed"] := by
   decide
-
-/-- `Execute`: condition errors are returned only `if len(objects) < int(maxResults)` -/
-theorem tie_final_error_rule : Gen.ListObjects.finalErrorRule =
-    "len(listObjectsResponse.Objects) < int(maxResults) && errs != nil" := by decide
 
 /-- `execute`: depth test (`>=`) before the visited map, visited map before `trySendCandidate`; the key
 of the visited map is `sourceUserObj#edge` -/
